@@ -658,6 +658,12 @@ func (se *SpecEnv) evalCall(x *SExpr) TV {
 			se.fail("base needs a slice")
 		}
 		return TV{a.Base, nil}
+	case "freshbase":
+		a, _ := se.asSlice(se.eval(args[0]))
+		if a == nil {
+			se.fail("freshbase needs a slice")
+		}
+		return TV{IGe(a.Base, c.heapGet(se.Old, "$alloc", SInt)), bt}
 	case "disjoint":
 		a, _ := se.asSlice(se.eval(args[0]))
 		b, _ := se.asSlice(se.eval(args[1]))
@@ -1053,6 +1059,16 @@ func (c *FCtx) loopInvariants(e *Env, spec *LoopSpec, ordinal int) []loopInv {
 
 // evalSpecTerm evaluates a spec expression inside the function under verification.
 func (c *FCtx) evalSpecTerm(e *Env, x *SExpr, st *State, old *State, extra map[string]TV) *Term {
+	se := c.specEnvFor(e, st, old, extra)
+	v := se.eval(x)
+	t, ok := v.V.(*Term)
+	if !ok {
+		panic(specFail(fmt.Sprintf("scalar expected: %s", x)))
+	}
+	return t
+}
+
+func (c *FCtx) specEnvFor(e *Env, st *State, old *State, extra map[string]TV) *SpecEnv {
 	b := &Bindings{vals: map[string]TV{}, parent: c.topBindings}
 	for k, v := range extra {
 		b.vals[k] = v
@@ -1074,10 +1090,5 @@ func (c *FCtx) evalSpecTerm(e *Env, x *SExpr, st *State, old *State, extra map[s
 			}
 		}
 	}
-	v := se.eval(x)
-	t, ok := v.V.(*Term)
-	if !ok {
-		panic(specFail(fmt.Sprintf("scalar expected: %s", x)))
-	}
-	return t
+	return se
 }
